@@ -135,6 +135,11 @@ Theorem flag_out_of_range_is_error_unsigned : forall k w nm z,
   write_leaf PStd k (TPtr (TBasic (KUint w) nm)) (VInt z) = Err 31.
 Proof. exact write_leaf_overflow_u. Qed.
 
+Theorem flag_out_of_range_is_error_float32 : forall nm z,
+  (float_bound 32 * 1024 <= Z.abs z)%Z ->
+  write_leaf PStd (FkFloat 64) (TPtr (TBasic (KFloat 32) nm)) (VFloat z) = Err 31.
+Proof. exact write_leaf_overflow_f32. Qed.
+
 Theorem flag_native_parse_in_range : forall b s z, (1 <= b)%N -> parse_int b s = Ok z ->
   (- Z.of_N (pow2 (b - 1)) <= z < Z.of_N (pow2 (b - 1)))%Z.
 Proof. exact parse_int_range. Qed.
@@ -159,7 +164,17 @@ Theorem flag_netip_pre_fix_refuted :
   class_of (flag_value PStd 0 0 ex_fs ex_tmpl [(S "addr", S "10.0.0.1")]) = COk.
 Proof. exact flag_netip_pre_fix_refuted_l. Qed.
 
+(* fixed: on the std source a leaf of a DECLARED complex type given on the
+   command line made Value panic; documentation of the old behaviour. *)
+Theorem flag_named_complex_pre_fix_refuted :
+  class_of (flag_value_with write_leaf_pre_fix2 PStd 0 0 named_fs named_tmpl [(S "gain", S "2i")]) = CPanic /\
+  class_of (flag_value_with write_leaf_pre_fix2 PPflag 0 0 named_fs named_tmpl [(S "gain", S "2i")]) = COk /\
+  class_of (flag_value PStd 0 0 named_fs named_tmpl [(S "gain", S "2i")]) = COk.
+Proof. exact flag_named_complex_pre_fix_refuted_l. Qed.
+
 Print Assumptions flag_names.
+Print Assumptions flag_out_of_range_is_error_float32.
+Print Assumptions flag_named_complex_pre_fix_refuted.
 Print Assumptions flag_defaults_are_template.
 Print Assumptions flag_advertised_is_default.
 Print Assumptions flag_accumulate_ints.
